@@ -344,7 +344,16 @@ func cmdCheck(args []string) int {
 		violations++
 		exit = 1
 	}
+	seenSite := map[string]bool{}
 	for _, ob := range failed {
+		site := ob.Name
+		if i := strings.LastIndex(site, "#"); i > 0 {
+			site = site[:i]
+		}
+		if seenSite[site] {
+			continue // same duty on another path: one report per site
+		}
+		seenSite[site] = true
 		if k := kf.match(*property, ob); k != nil {
 			fmt.Printf("KNOWN-FINDING: property=%s %s\n", *property, k.what)
 			continue
